@@ -140,7 +140,7 @@ func TestVerif_C10(t *testing.T) {
 	defer res.finish(t)
 	res.assume("loopback UDP delivers datagrams of one socket pair in order")
 	res.assume("a watchdog expiry without a parked teardown goroutine in the dump is inconclusive, not a violation")
-	nscen := vEnv.pick(240, 16000)
+	nscen := vEnv.pick(480, 16000)
 	sigs := map[string]int{}
 	for sc := 0; sc < nscen; sc++ {
 		if !vEnv.mine(sc) {
@@ -444,7 +444,7 @@ func TestVerif_C10(t *testing.T) {
 }
 
 func c10Refresh(t *testing.T, res *vResult) {
-	n := vEnv.pick(120, 6000)
+	n := vEnv.pick(240, 6000)
 	for sc := 0; sc < n; sc++ {
 		idx := 1000000 + sc
 		if !vEnv.mine(idx) {
